@@ -999,14 +999,21 @@ class Facts:
                 return False
             # (the function it is spliced into counts: a closure that moved into a new helper
             # together with its loop is still the reference closure)
+            if raw[cpath]['kind'] != 'Closure':
+                return cpath in unknown      # a new helper function handed over as the callable
             root = j.get('root') or j['path']
             root = self.renamed.get(root, root)
             return kind not in self.known_closures.get(root, [])
-        ds = desugar.Desugarer(raw, is_new)
+        inl = {}
         for b in self.j['bodies']:
             jb = inline_new_callees(raw, b, unknown) if unknown else b
             if jb is not b:
                 self.inlined[b['path']] = jb['inlined']
+            inl[b['path']] = jb
+        self._inl = inl
+        ds = desugar.Desugarer(inl, is_new)
+        for b in self.j['bodies']:
+            jb = inl[b['path']]
             jd = ds.run(jb)
             if jd is not jb:
                 self.desugared[b['path']] = jd['desugared']
@@ -1023,7 +1030,8 @@ class Facts:
         if path not in self._norm:
             import desugar
             jb = self.bodies[path].j
-            jd = desugar.Desugarer(self._raw, lambda c, k, j: True).run(jb)
+            jd = desugar.Desugarer(self._inl, lambda c, k, j: self._inl[c]['kind'] == 'Closure' or
+                                   c in self.unknown_functions).run(jb)
             self._norm[path] = self.bodies[path] if jd is jb else Body(self, desugar.split_switch_operands(jd))
         return self._norm[path]
 
